@@ -18,6 +18,47 @@ thread_local! {
     static EMITTED: RefCell<HashMap<String, usize>> = RefCell::new(HashMap::new());
     /// rotates the budget class of the failing-writer cases
     static IO_ROT: std::cell::Cell<u64> = std::cell::Cell::new(0);
+    /// rotates the budget class of the byte-budget cases
+    static BYTE_ROT: std::cell::Cell<u64> = std::cell::Cell::new(0);
+    /// when set, the byte-budget cases take EVERY budget `0 ..= len + 1` (family byte-budget-sweep)
+    static BYTE_SWEEP: std::cell::Cell<bool> = std::cell::Cell::new(false);
+}
+
+/// One `serialize_write` into a `ByteBudgetWriter`: budget, its class, the wire outcome, the bytes the writer holds,
+/// the implementation-only verdict (`common::byte_budget_verdict`).
+struct ByteCase {
+    n: usize,
+    class: &'static str,
+    shown: String,
+    held: Vec<u8>,
+    verdict: Option<String>,
+}
+
+/// `serialize_write` of `h` into writers with a byte budget; `reference` / `w`: the same call into a `Vec<u8>`.
+fn byte_budget_cases(h: &xot::Html5, hv: &HVocab, p: &HParams, start: xot::Node, reference: &[u8], w: &Res) -> Vec<ByteCase> {
+    use crate::common::{byte_budget_verdict, pick_byte_budgets, ByteBudgetWriter};
+    let wk = shown_res(w).split(' ').next().unwrap().to_string();
+    let budgets: Vec<(usize, &'static str)> = if BYTE_SWEEP.with(|c| c.get()) {
+        (0..=reference.len() + 1).map(|n| (n, "sweep")).collect()
+    } else {
+        let rot = BYTE_ROT.with(|c| {
+            let v = c.get();
+            c.set(v + 1);
+            v
+        });
+        pick_byte_budgets(reference, rot)
+    };
+    budgets
+        .into_iter()
+        .map(|(n, class)| {
+            let mut bw = ByteBudgetWriter::new(n);
+            let r = res_of(guarded(|| h.serialize_write(to_params(hv, p), start, &mut bw).map(|_| String::new())));
+            let shown = shown_res(&r);
+            let rk = shown.split(' ').next().unwrap().to_string();
+            let verdict = byte_budget_verdict(&rk, &bw, n, &wk, reference);
+            ByteCase { n, class, shown, held: bw.data, verdict }
+        })
+        .collect()
 }
 
 /// One `serialize_write` into a `FailingWriter`: budget, its class, the wire outcome, the bytes the writer holds,
@@ -396,7 +437,7 @@ pub fn run_tree_with(mk: fn(&mut Xot) -> HVocab, t: &GTree, start_path: &[usize]
     ));
     element_stats(sub, &hv, sink);
     // everything that reads the Xot happens before `html5()` borrows it mutably
-    let results: Vec<(Res, Res, String, bool, Vec<IoCase>)> = {
+    let results: Vec<(Res, Res, String, bool, Vec<IoCase>, Vec<ByteCase>)> = {
         let h = xot.html5();
         params
             .iter()
@@ -409,12 +450,29 @@ pub fn run_tree_with(mk: fn(&mut Xot) -> HVocab, t: &GTree, start_path: &[usize]
                 let w2 = res_of(guarded(|| h.serialize_write(to_params(&hv, p), start, &mut cw).map(|_| String::new())));
                 let short_ok = !(matches!(w, Res::Ok(_)) && matches!(w2, Res::Ok(_))) || cw.data == buf;
                 let io = failing_writer_cases(&h, &hv, p, start);
-                (s, w, String::from_utf8_lossy(&buf).to_string(), short_ok, io)
+                let bytes = byte_budget_cases(&h, &hv, p, start, &buf, &w);
+                (s, w, String::from_utf8_lossy(&buf).to_string(), short_ok, io, bytes)
             })
             .collect()
     };
     let tree_wire = format!("{} {}", path_str(start_path), t.wire());
-    for (p, (s, w, written, short_ok, io)) in params.iter().zip(results.iter()) {
+    for (p, (s, w, written, short_ok, io, bytes)) in params.iter().zip(results.iter()) {
+        // a writer with a BYTE budget: outcome and the bytes it holds are compared with the model
+        // (`serializeHtmlWriteB (byteBudget n)`); oracle: Err(Io) iff the budget is smaller than the byte length of
+        // the never-failing run, the writer holds exactly its first min(budget, len) bytes
+        for c in bytes {
+            sink.emit(format!("html write_bytes {} {} {}", c.n, p.wire(), tree_wire), format!("{} {}", c.shown, crate::common::enc_bytes(&c.held)));
+            let rk = c.shown.split(' ').next().unwrap();
+            sink.stat(&format!("bytes.budget.{}", c.class));
+            sink.stat(&format!("bytes.outcome.{}", if rk == "ok" || rk == "err:Io" || rk == "panic" { rk } else { "serialisation-error" }));
+            if std::str::from_utf8(&c.held).is_err() {
+                sink.stat("bytes.sink-ends-inside-a-character");
+            }
+            match &c.verdict {
+                Some(what) => fail(sink, &Finding { signature: "C19:byte-budget-writer-differs".to_string(), what: format!("serialize_write: {}", what) }, t, start_path, p, &Res::Err(c.shown.clone(), None)),
+                None => sink.stat("oracle.C19.byte-budget-writer-ok"),
+            }
+        }
         // a writer that fails: outcome and the bytes it holds are compared with the model
         // (`serializeHtmlWriteW (budget k)`); oracle: Err(Io), never a panic, a prefix of the never-failing run
         for c in io {
@@ -723,6 +781,28 @@ pub fn run(seed: u64, count: usize, tier: &str, sink: &mut Sink) {
         with_vocab(|hv| sink.emit(hv.v.wire(), "ok".to_string()));
     }
     normalizer_boundary(sink);
+    // every byte budget for documents whose text, attribute values, comments and raw-text elements consist of 2-, 3-
+    // and 4-byte characters: most budgets end inside a character
+    {
+        use GValue::*;
+        let e = |n: usize, kids: Vec<GTree>| GTree::new(Element(n), kids);
+        let tx = |s: &str| GTree::leaf(Text(s.to_string()));
+        let both = [HParams::plain(), HParams { cdata: vec![], indent: Some(vec![]) }];
+        let trees: Vec<GTree> = with_vocab(|hv| {
+            let h = |l: &str| hv.id(l, 0);
+            vec![
+                e(h("p"), vec![tx("é€😀")]),
+                GTree::new(Document, vec![e(h("div"), vec![GTree::leaf(Attribute(h("title"), "ß中\u{10ffff}".into())), e(h("p"), vec![tx("\u{a0}<\u{2028}&\u{1f600}")]), e(h("script"), vec![tx("\u{7ff}\u{800}<\u{ffff}\u{10000}")])])]),
+                GTree::new(Document, vec![GTree::leaf(Comment("\u{80}\u{d7ff}\u{e000}".into())), e(h("p"), vec![tx("中"), GTree::leaf(PI(h("p"), Some("é>€".into())))])]),
+            ]
+        });
+        BYTE_SWEEP.with(|c| c.set(true));
+        for t in &trees {
+            sink.stat("family.byte-budget-sweep");
+            run_tree(t, &[], &both, sink);
+        }
+        BYTE_SWEEP.with(|c| c.set(false));
+    }
     if tier == "thorough" {
         exhaustive(sink);
     }
